@@ -48,6 +48,9 @@ func (e *Engine) call(fr *Frame, st *State, ins ssa.Instruction, cc *ssa.CallCom
 
 	switch fv := cc.Value.(type) {
 	case *ssa.Builtin:
+		if fv.Name() == "append" {
+			return e.appendOp(fr, st, cc, args)
+		}
 		return e.builtin(fr, st, ins, fv, cc, args, resType), nil
 	case *ssa.Function:
 		return e.callFunc(fr, st, ins, fv, nil, cc, args, resType)
@@ -625,8 +628,6 @@ func (e *Engine) builtin(fr *Frame, st *State, ins ssa.Instruction, b *ssa.Built
 		r := Fresh("cap", SInt)
 		st.assume(Ge(r, IntLit(0)))
 		return scalar(r)
-	case "append":
-		return e.appendOp(fr, st, cc, args)
 	case "copy":
 		dt := cc.Args[0].Type()
 		n := Fresh("copied", SInt)
@@ -666,61 +667,96 @@ func (e *Engine) builtin(fr *Frame, st *State, ins ssa.Instruction, b *ssa.Built
 	return Val{}
 }
 
-func (e *Engine) appendOp(fr *Frame, st *State, cc *ssa.CallCommon, args []Val) Val {
+func (e *Engine) appendOp(fr *Frame, st *State, cc *ssa.CallCommon, args []Val) (Val, []*State) {
 	t := cc.Args[0].Type()
 	if kindOf(t) == kSeq {
 		// []byte append: sequence concatenation (argument may be a string)
 		a, b := args[0].T, args[1].T
 		r := App("seq_cat", SSeq, a, b)
-		st.assume(Eq(seqLen(r), Add(seqLen(a), seqLen(b))))
-		return scalar(r)
+		st.assume(Ne(r, nilBytes()))
+		return scalar(r), nil
 	}
 	sl := t.Underlying().(*types.Slice)
 	s, x := args[0], args[1]
 	arr, off, ln, cp := s.Fs[0].T, s.Fs[1].T, s.Fs[2].T, s.Fs[3].T
 	xarr, xoff, xlen := x.Fs[0].T, x.Fs[1].T, x.Fs[2].T
 	if v, ok := xlen.intVal(); ok && v.Sign() == 0 {
-		return s
+		return s, nil
 	}
 	n := Add(ln, xlen)
 	fits := Le(n, cp)
-	newref := st.newRef()
-	newcap := Fresh("newcap", SInt)
-	st.assume(Ge(newcap, n))
-	st.assume(Le(newcap, IntLit(1<<40)))
 	k := int64(-1)
 	if v, ok := xlen.intVal(); ok && v.IsInt64() && v.Int64() <= 8 {
 		k = v.Int64()
 	}
+	j := BoundVar("j", SInt)
+	// the appended values are read before anything is written
+	type leafInfo struct {
+		key   string
+		inner string
+		vals  []*Term // k >= 0
+		xIn   *Term
+	}
+	var lis []leafInfo
 	for _, l := range leaves(sl.Elem()) {
 		key := elemKey(sl.Elem(), l.path)
 		inner := arrSort(SInt, l.sort)
 		outer := st.heapGet(key, arrSort(SInt, inner))
+		li := leafInfo{key: key, inner: inner, xIn: Select(outer, xarr)}
+		for i := int64(0); i < k; i++ {
+			li.vals = append(li.vals, Select(li.xIn, Add(xoff, IntLit(i))))
+		}
+		lis = append(lis, li)
+	}
+	// case 1: in place
+	st1 := st
+	st2 := st.clone()
+	st1.assume(fits)
+	for _, li := range lis {
+		outer := st1.heapGet(li.key, arrSort(SInt, li.inner))
 		oldInner := Select(outer, arr)
-		xInner := Select(outer, xarr)
-		newInner := Fresh("appnew", inner)
-		j := BoundVar("j", SInt)
-		// prefix copied
-		st.assume(Forall([]*Term{j}, Implies(And(Ge(j, IntLit(0)), Lt(j, ln)), Eq(Select(newInner, j), Select(oldInner, Add(off, j)))), Select(newInner, j)))
-		var inplace *Term = oldInner
+		var inplace *Term
 		if k >= 0 {
+			inplace = oldInner
 			for i := int64(0); i < k; i++ {
-				v := Select(xInner, Add(xoff, IntLit(i)))
-				inplace = Store(inplace, Add(Add(off, ln), IntLit(i)), v)
-				st.assume(Eq(Select(newInner, Add(ln, IntLit(i))), v))
+				inplace = Store(inplace, Add(Add(off, ln), IntLit(i)), li.vals[i])
 			}
 		} else {
-			ip := Fresh("appinpl", inner)
-			// in place: positions outside [off+len, off+n) unchanged, inside copied from x (x read before the write)
-			st.assume(Forall([]*Term{j}, Implies(Or(Lt(j, Add(off, ln)), Ge(j, Add(off, n))), Eq(Select(ip, j), Select(oldInner, j))), Select(ip, j)))
-			st.assume(Forall([]*Term{j}, Implies(And(Ge(j, IntLit(0)), Lt(j, xlen)), And(
-				Eq(Select(ip, Add(Add(off, ln), j)), Select(xInner, Add(xoff, j))),
-				Eq(Select(newInner, Add(ln, j)), Select(xInner, Add(xoff, j))))), Select(xInner, Add(xoff, j))))
+			ip := Fresh("appinpl", li.inner)
+			st1.assume(Forall([]*Term{j}, Implies(Or(Lt(j, Add(off, ln)), Ge(j, Add(off, n))), Eq(Select(ip, j), Select(oldInner, j))), Select(ip, j)))
+			st1.assume(Forall([]*Term{j}, Implies(And(Ge(j, IntLit(0)), Lt(j, xlen)),
+				Eq(Select(ip, Add(Add(off, ln), j)), Select(li.xIn, Add(xoff, j)))), Select(li.xIn, Add(xoff, j))))
 			inplace = ip
 		}
-		o1 := Store(outer, arr, Ite(fits, inplace, oldInner))
-		o2 := Store(o1, newref, newInner)
-		st.heapSet(key, o2)
+		st1.heapSet(li.key, Store(outer, arr, inplace))
 	}
-	return Val{Fs: []Val{{T: Ite(fits, arr, newref)}, {T: Ite(fits, off, IntLit(0))}, {T: n}, {T: Ite(fits, cp, newcap)}}}
+	r1 := Val{Fs: []Val{{T: arr}, {T: off}, {T: n}, {T: cp}}}
+	// case 2: reallocation
+	st2.assume(Not(fits))
+	newref := st2.newRef()
+	newcap := Fresh("newcap", SInt)
+	st2.assume(Ge(newcap, n))
+	st2.assume(Le(newcap, IntLit(1<<40)))
+	for _, li := range lis {
+		outer := st2.heapGet(li.key, arrSort(SInt, li.inner))
+		oldInner := Select(outer, arr)
+		newInner := Fresh("appnew", li.inner)
+		st2.assume(Forall([]*Term{j}, Implies(And(Ge(j, IntLit(0)), Lt(j, ln)), Eq(Select(newInner, j), Select(oldInner, Add(off, j)))), Select(newInner, j)))
+		if k >= 0 {
+			for i := int64(0); i < k; i++ {
+				st2.assume(Eq(Select(newInner, Add(ln, IntLit(i))), li.vals[i]))
+			}
+		} else {
+			st2.assume(Forall([]*Term{j}, Implies(And(Ge(j, IntLit(0)), Lt(j, xlen)),
+				Eq(Select(newInner, Add(ln, j)), Select(li.xIn, Add(xoff, j)))), Select(newInner, Add(ln, j))))
+		}
+		st2.heapSet(li.key, Store(outer, newref, newInner))
+	}
+	r2 := Val{Fs: []Val{{T: newref}, {T: IntLit(0)}, {T: n}, {T: newcap}}}
+	// registers must agree on both continuations: bind through fresh symbols
+	res := Val{Fs: []Val{{T: Fresh("app_arr", SInt)}, {T: Fresh("app_off", SInt)}, {T: n}, {T: Fresh("app_cap", SInt)}}}
+	st1.assume(eqVal(res, r1))
+	st2.assume(eqVal(res, r2))
+	e.paths++
+	return res, []*State{st1, st2}
 }
